@@ -207,8 +207,8 @@ def props():
     add("axis", "visible", d_bool, bad=lambda r: r.choice(["yes", 1, None]))
     add("valaxis", "crosses", lambda r: E(r, chart.XL_AXIS_CROSSES, skip=("CUSTOM",)))
     add("valaxis", "crosses_at", lambda r: r.choice([0, 2.5, -10, r.uniform(-100, 100)]), none_ok=True)
-    add("valaxis", "major_unit", lambda r: r.choice([1, 0.25, 10, r.uniform(0.001, 1000)]), none_ok=True)
-    add("valaxis", "minor_unit", lambda r: r.choice([1, 0.25, 10, r.uniform(0.001, 1000)]), none_ok=True)
+    add("valaxis", "major_unit", lambda r: r.choice([1, 0.25, 10, r.uniform(0.001, 1000)]), none_ok=True, bad=lambda r: r.choice([0, -1, -0.5, "x"]))
+    add("valaxis", "minor_unit", lambda r: r.choice([1, 0.25, 10, r.uniform(0.001, 1000)]), none_ok=True, bad=lambda r: r.choice([0, -1, -0.5, "x"]))
     add("ticklabels", "number_format", lambda r: r.choice(["General", "0.00", "#,##0", '0.0"%"', "yyyy-mm-dd"]))
     add("ticklabels", "number_format_is_linked", d_bool)
     add("ticklabels", "offset", lambda r: r.randint(0, 1000), bad=lambda r: r.choice([-1, 1001, "5"]))
@@ -510,11 +510,11 @@ def m_connect(rng, w):
     c, p = w.pick(rng, "connector")
     s, sp = w.pick(rng, "autoshape")
     n = rng.choice([0, 1, 2, 3])
-    if rng.random() < 0.5:
-        c.begin_connect(s, n)
-    else:
-        c.end_connect(s, n)
-    return f"{p}.connect({sp},{n})"
+    order = rng.choice(["begin", "end", "begin,end", "end,begin"])
+    for which in order.split(","):
+        s2, _ = w.pick(rng, "autoshape")
+        (c.begin_connect if which == "begin" else c.end_connect)(rng.choice([s, s2]), n)
+    return f"{p}.connect({order},{sp},{n})"
 
 
 def m_add_group(rng, w):
@@ -811,10 +811,18 @@ METHODS = [
 _props = None
 
 
+def generic_bad(rng):
+    """values outside every property's domain by type or magnitude (a property may still coerce some of them)"""
+    return rng.choice(["zz", [], 10**30, -10**30, 0.5, -1, object()])
+
+
 def prop_table():
     global _props
     if _props is None:
         _props = props()
+        for p in _props:
+            if p.bad is None:
+                p.bad = generic_bad
     return _props
 
 
